@@ -10,44 +10,44 @@ TECH = 'CBMC 6.11 code contracts (goto-instrument --dfcc) on functions extracted
 
 # id -> (decided text, not-decided list, design ref)
 P = {
- 'C01': ('Proof (contracts, all inputs) of the per-edge kernels the region semantics rests on: IsContributingClosed == boundary test of OP(cliptype, FILLED(fillrule, w_subj), FILLED(fillrule, w_clip)) for all 5x4 combinations and all winding numbers; the winding-count update of IntersectEdges preserves the face-winding representation; SetWindCountForClosedPathEdge (bounded AEL) establishes it.',
+ 'C01': ('Proof (contracts, all inputs) of the per-edge kernels the region semantics rests on: IsContributingClosed == boundary test of OP(cliptype, FILLED(fillrule, w_subj), FILLED(fillrule, w_clip)) for all 5x4 combinations and all winding numbers; the winding-count update of IntersectEdges preserves the face-winding representation; AddNewIntersectNode keeps the vertex in the scanbeam and on an edge; SetWindCountForClosedPathEdge (bounded AEL) establishes the representation.',
          ['AEL ordering, intersection ordering, horizontals, ring assembly, intersection-point accuracy (both precision builds): invariants over unbounded linked structures / floating point'], '5 C01'),
- 'C03': ('Proof of the structural predicates (PtsReallyClose, IsVerySmallTriangle, IsValidClosedPath) against their definitions; bounded check of BuildPath64 on rings of fixed size: >=3 vertices, no equal neighbours incl. last/first.',
-         ['bounding-box clause, all geometric clauses (spikes, crossings, orientation vs nesting, Union idempotence)'], '5 C03'),
- 'C04': ('Proof that tree and paths variants build every path through the same callee with the same arguments (call-trace contracts), IsHole <=> even non-zero Level.',
-         ['nesting correctness (owner search over the OutRec graph), area equality'], '5 C04'),
- 'C05': ('Proof of IsContributingOpen == the statement\'s inside/outside rule per clip type and fill rule; bounded SetWindCountForOpenPathEdge; AddPaths_ open end flags (bounded).',
+ 'C03': ('Proof of the structural predicates (PtsReallyClose, IsVerySmallTriangle, IsValidClosedPath) and of DoSplitOp (the splice creates no equal neighbours; loop-free, rings of 4/5/6); bounded checks of BuildPath64 (>=3 vertices, no equal neighbours incl. last/first) and CleanCollinear (no removable vertex left, over abstract geometry).',
+         ['FixSelfIntersects loop, bounding-box clause, all geometric clauses (spikes beyond CleanCollinear, crossings, orientation vs nesting, Union idempotence)'], '5 C03'),
+ 'C04': ('Proof (loop contracts) that BuildPaths64/BuildTree64/BuildPathsD/BuildTreeD visit every OutRec of the final list exactly once and build every path through the same callee with the same arguments in the paths and tree variants; CheckBounds call trace; IsHole <=> even non-zero Level; bounded Path1InsidePath2 vote (boundary midpoint counts as inside) and CheckSplitOwner progress.',
+         ['nesting correctness of the owner search as a whole (see finding F14 in DESIGN.md), area equality'], '5 C04'),
+ 'C05': ("Proof of IsContributingOpen == the statement's inside/outside rule per clip type and fill rule; the builders hand open OutRecs to the open solution with isOpen=true in both variants; bounded SetWindCountForOpenPathEdge and AddPaths_ open end flags.",
          ['where pieces are cut, lengths, tolerance; closed result unchanged by open subjects'], '5 C05'),
- 'C06': ('Proof of the sign/orientation plumbing of polygon offsetting: Group reversal flag, group_delta_ sign, |delta|<0.5 and delta==0 shortcuts, clean-up union fill rule / ReverseSolution.',
-         ['the offset region itself (trigonometry, floating point)'], '5 C06'),
- 'C07': ('Proof that per-path state of DoGroupOffset (end type, delta) is re-derived from the group for every path: the result for one path cannot depend on other paths in the call.',
-         ['stroke geometry, caps, +-delta symmetry'], '5 C07'),
+ 'C06': ('Proof of the sign/orientation plumbing of polygon offsetting (Group reversal flag, group_delta_ sign, |delta|<0.5 and delta==0 shortcuts, clean-up union fill rule / ReverseSolution) and of the join selection of OffsetPoint and the vertex traversal of OffsetPolygon (call-trace contracts).',
+         ['the offset region itself (trigonometry, floating point), DoSquare/DoMiter/DoRound geometry'], '5 C06'),
+ 'C07': ('Proof that per-path state of DoGroupOffset (end type, delta) is re-derived from the group for every path, and of OffsetOpenPath (caps by end type at both ends, forward pass, normal reversal, backward pass).',
+         ['stroke geometry, +-delta symmetry, OffsetOpenJoined'], '5 C07'),
  'C08': ('Proof of GetLocation (exact side / inside classification), Rect64 predicates, location arithmetic, and the Execute shortcuts (inside paths returned unchanged, outside paths dropped).',
          ['the location state machine of ExecuteInternal, TidyEdges, intersection points, winding equality'], '5 C08'),
- 'C09': ('Proof of the shared rectangle kernel as used by RectClipLines64 and its Execute shortcuts; GetPath order (bounded).',
-         ['piece positions and lengths'], '5 C09'),
- 'C10': ('Proof of index/iterator safety and UB-freedom (bounds, pointers, signed overflow, conversions, division by zero, float overflow/NaN where stated) of every function under contract, with the coordinate ranges of the property as preconditions; call-site preconditions of the offsetting helpers.',
+ 'C09': ('Proof of the shared rectangle kernel incl. GetNextLocation (loop contracts), RectClipLines64::Execute shortcuts and per-polyline scratch reset, ExecuteInternal call trace (walk starts at segment 1); bounded GetPath (ring order, two-point pieces kept).',
+         ['piece positions and lengths (intersection points)'], '5 C09'),
+ 'C10': ('Proof of index/iterator safety and UB-freedom (bounds, pointers, signed overflow, conversions, division by zero, float overflow/NaN where stated) of every function under contract, with the coordinate ranges of the property as preconditions; call-site preconditions of the offsetting helpers; GetDx/TopX integer arithmetic; CheckSplitOwner progress contract (termination).',
          ['termination and memory safety of whole operations; leaks; the allocation-failure clause (no exceptions in the verified C dialect)'], '5 C10'),
  'C11': ('Proof of CheckPrecisionRange (both exception configurations), ScalePath/ScalePaths error reporting, PathsD entry points check precision first and return empty on error (call-trace), export-layer argument validation, NoClip contributes nothing.',
          ['"Execute returns true for every input" (needs a global sweep invariant)'], '5 C11'),
  'C12': ('Proof that CleanUp/Clear reset every scratch member, that RectClip64::Execute starts every path with empty scratch state, and the DoGroupOffset per-path invariant.',
          ['bit-identical reruns, arbitrary call sequences, reusable-container sharing'], '5 C12'),
- 'C13': ('Proof that LocMinSorter is the strict weak order (y desc, x asc); bounded check that AddPaths_ flags exactly the cyclic local extrema independent of start vertex, duplicates and closing vertex.',
+ 'C13': ('Proof that LocMinSorter is the strict weak order (y desc, x asc) and IntersectListSort its counterpart; TopX/GetDx free of integer overflow; bounded check that AddPaths_ flags exactly the cyclic local extrema independent of start vertex, duplicates and closing vertex.',
          ['order-independence of the sweep, all algebraic identities and transformations'], '5 C13'),
- 'C14': ('Every assigns clause of every function under contract names only parameters and object members (CBMC checks every write against it, so a static scratch variable fails an assigns obligation); supporting static scan (nm on the freshly built objects, with and without USINGZ): every symbol in a writable section is std::__ioinit, declared const in the sources, or a string-literal pointer that is never written.',
+ 'C14': ("Every assigns clause of every function under contract names only parameters and object members (CBMC checks every write against it, so a static scratch variable fails an assigns obligation); supporting static scan (nm on the freshly built objects plus a translation unit instantiating the header-only API and the C export layer, with and without USINGZ): every symbol in a writable section is std::__ioinit, declared const in the sources, or a string-literal pointer that is never written (known finding F12: the USINGZ export layer's callback globals).",
          ['interleavings (CBMC has no threads); nothing here explores schedules'], '5 C14'),
- 'C15': ('Proof of SetZ (assigns only ip.z, subject edge first, z pre-filled from a coincident end point else default); every x/y contract re-proved with -DUSINGZ.',
-         ['equality of whole solutions across builds; the "every solution vertex" clause'], '5 C15'),
- 'C16': ('Proof (call-trace contracts) that every PathsD overload forwards to the integer operation with the documented scale on paths, delta and arc tolerance and descales the result; Point::Init rounds with round().',
-         ['rounding of x*scale itself, precision loss on descale, equality of complete results'], '5 C16'),
+ 'C15': ('Proof of SetZ; USINGZ and plain IntersectEdges make the same building calls and every vertex created at a crossing reaches SetZ exactly once iff a callback is installed; the USINGZ/plain twins of the offsetting helpers emit bit-identical x,y; Point::Init copies z; every x/y contract re-proved with -DUSINGZ.',
+         ['equality of whole solutions across builds; DoSplitOp callback; ClipperD::ZCB / ClipperOffset::ZCB proxies'], '5 C15'),
+ 'C16': ('Proof (call-trace contracts) that every PathsD overload forwards to the integer operation with the documented scale on paths, delta and arc tolerance and descales the result; Point<int64_t>::Init(double) rounds to a nearest integer; BuildPathsD/BuildTreeD pass invScale_.',
+         ['rounding of x*scale itself (floating-point product), precision loss on descale, equality of complete results'], '5 C16'),
  'C17': ('Proof (call-trace contracts) that every exported function forwards every parameter to the slot of the same meaning; argument validation; marshaling length arithmetic and in-bounds access.',
          ['equality of complete results with the C++ call beyond forwarding and marshaling'], '5 C17'),
- 'C18': ('Proof for all 64-bit inputs whose differences do not overflow: TriSign, ProductsAreEqual, CrossProductSign, IsCollinear on both the __int128 and the portable branch (products as exact ghost products), Multiply carry chain; GetSegmentIntersectPt parallel/clamp structure.',
-         ['accuracy of GetSegmentIntersectPt, GetClosestPointOnSegment, Area (floating-point multiply/divide is beyond every installed back end); PointInPolygon; the 64x64 multiplier itself (assumption A1/A2)'], '5 C18'),
+ 'C18': ('Proof for all 64-bit inputs whose differences do not overflow: TriSign, ProductsAreEqual, CrossProductSign, IsCollinear on both the __int128 and the portable branch (products as exact ghost products), Multiply carry chain; bounded PointInPolygon vs exact even-odd oracle.',
+         ['accuracy of GetSegmentIntersectPt, GetClosestPointOnSegment, Area (floating-point multiply/divide is beyond every installed back end); the 64x64 multiplier itself (assumption A1/A2)'], '5 C18'),
  'C19': ('Minkowski quad construction (indices, closing edge iff closed, count) and forwarding to Union(NonZero); empty input => empty result.',
          ['that the union of the quads is right (= C01)'], '5 C19'),
- 'C20': ('Proof (loop contracts, unbounded length) for GetNext/GetPrior, RDP/RamerDouglasPeucker, SimplifyPath, TrimCollinear: in-order subsequence, open end points kept, index safety; TranslatePath, GetBounds defining equations.',
-         ['Length, Ellipse, area preservation, SimplifyPath "no removable vertex left" (floating point)'], '5 C20'),
+ 'C20': ('Proof (loop contracts, unbounded length) for GetNext/GetPrior, RDP/RamerDouglasPeucker, TrimCollinear (in-order subsequence, open end points kept, index safety), GetBounds and TranslatePath (defining equations); bounded SimplifyPath and RDP epsilon clause.',
+         ['Length, Ellipse, area preservation, StripNearEqual/StripDuplicates (floating point / std::unique)'], '5 C20'),
 }
 NA = {
  'C02': 'No per-function contract obligation specific to rectilinear exactness is both expressible and necessary: the mechanism is DoHorizontal + ConvertHorzSegsToJoins + ProcessHorzJoins + CheckJoinLeft/Right over the unbounded AEL and OutPt rings (CBMC contracts have no inductive heap predicates); the generic facts it uses (IsCollinear exact, TopX exact at end points) are proved under C18/C10.',
